@@ -268,7 +268,7 @@ void reb_rotation_to_orbital(struct reb_rotation q, double* Omega, double* inc, 
             *omega = 2.0 * half_sum;
         }else{
             double half_diff = atan2(dp, cp);
-            *omega = 2.0 * half_diff;
+            *omega = -2.0 * half_diff;
         }
     }
     if (*omega < 0){
